@@ -493,4 +493,67 @@ def allMonitors (t : Step) : List (String × Viol) :=
     ("lifecycle", lifecycle t), ("callbacks", callbacks t), ("withdrawLaw", withdrawLaw t),
     ("stability", stability t), ("noPanic", noPanic t), ("rejectedNoChange", rejectedNoChange t) ]
 
+
+/-! ## C10: a history monitor with a ghost record per context -/
+
+structure GhostCtx where
+  created    : Int             -- height of the block containing the call
+  lastStart  : Option Int      -- height at which the last batch was issued or skipped
+  lastExpiry : Option Int      -- the expiry height of that batch
+  clean      : Bool            -- running with unchanged timeout/frequency ever since the last start
+  freqAtStart : Nat
+  maxTotal   : Option Int      -- largest total ever in force; `none` once a negative (unbounded) total was in force
+deriving Repr
+
+abbrev Ghost := Map CtxId GhostCtx
+
+def maxTot (g : Option Int) (t : Int) : Option Int :=
+  match g with
+  | none => none
+  | some m => if t < (0 : Int) then none else some (if t > m then t else m)
+
+/-- C10 on one step, updating the ghost -/
+def cadence (g : Ghost) (t : Step) : Ghost × Viol :=
+  -- contexts created in this step
+  let g1 := t.post.ctxs.foldl (fun (g : Ghost) p =>
+    match Map.get t.pre.ctxs p.1, Map.get g p.1 with
+    | none, none => Map.set g p.1 { created := t.pre.height, lastStart := none, lastExpiry := none, clean := false,
+                                    freqAtStart := p.2.freq, maxTotal := if p.2.total < (0 : Int) then none else some p.2.total }
+    | _, _ => g) g
+  let isEnd := match t.op with | .endblock _ => true | _ => false
+  t.post.ctxs.foldl (fun (acc : Ghost × Viol) p =>
+    let c := p.1; let y := p.2
+    match Map.get acc.1 c with
+    | none => acc
+    | some gc =>
+      let gc := { gc with maxTotal := maxTot gc.maxTotal y.total }
+      match Map.get t.pre.ctxs c with
+      | none => (Map.set acc.1 c gc, acc.2)
+      | some x =>
+        let started := y.batch != x.batch
+        let v1 := if started then
+            chk isEnd "batch started outside end-of-block" ++
+            (match gc.lastExpiry with
+             | some e => chk (decide (t.pre.height ≥ e)) s!"batch {y.batch} started at {t.pre.height}, before the previous batch expired (at {e}): two batches in flight"
+             | none => []) ++
+            (match gc.lastStart with
+             | some ls => if gc.clean then chk (t.pre.height == ls + (gc.freqAtStart : Int))
+                 s!"context stayed running with unchanged timeout/frequency {gc.freqAtStart}, yet consecutive batches started at {ls} and {t.pre.height}" else []
+             | none => []) ++
+            chk (x.rep || y.batch ≤ 1) "a one-shot context got a second batch" ++
+            (match gc.maxTotal with
+             | some m => chk (!x.rep || decide ((y.batch : Int) ≤ m)) s!"batch {y.batch} exceeds the largest total ever in force ({m})"
+             | none => [])
+          else []
+        -- first batch in the block of the call
+        let v2 := if isEnd && t.pre.height == gc.created && x.batch == 0 && x.state == .running then
+            chk (y.batch == 1 || y.state == .paused) "context still running at the end of the block of its call, but no first batch was issued or skipped"
+          else []
+        let clean' := if started then y.state == .running
+          else gc.clean && y.state == .running && x.state == .running && y.timeout == x.timeout && y.freq == x.freq
+        let gc' := if started then
+            { gc with lastStart := some t.pre.height, lastExpiry := some (t.pre.height + y.timeout), clean := clean', freqAtStart := y.freq }
+          else { gc with clean := clean' }
+        (Map.set acc.1 c gc', acc.2 ++ v1 ++ v2)) (g1, [])
+
 end SM.Mon
